@@ -39,7 +39,7 @@ func init() {
 		Shards:    shards(8, 16),
 		Timeout:   timeouts(12*time.Minute, 90*time.Minute),
 		MinEvals:  300,
-		Required:  []string{"method:Auth", "method:Attach", "method:Walk", "method:Open", "method:Create", "method:Read", "method:Write", "method:Stat", "method:WStat", "method:Clunk", "method:Remove", "error_results", "clipped_reads", "clipped_writes", "walk_limit_local", "concurrent_cells", "concurrent_calls_own_result", "abandon_cells", "wrap_cells", "deadline_then_plain", "many_blocked_cells"},
+		Required:  []string{"method:Auth", "method:Attach", "method:Walk", "method:Open", "method:Create", "method:Read", "method:Write", "method:Stat", "method:WStat", "method:Clunk", "method:Remove", "error_results", "clipped_reads", "clipped_writes", "walk_limit_local", "concurrent_cells", "concurrent_calls_own_result", "abandon_cells", "wrap_cells", "deadline_then_plain", "many_blocked_cells", "fragmenting_pairs"},
 		Run:       runC09,
 	})
 }
@@ -80,6 +80,7 @@ type recSession struct {
 	holdFid p9p.Fid       // if non-zero, only the call on this fid waits
 	inCall  int
 	maxIn   int
+	errFid  p9p.Fid // byUID mode: calls on this fid are answered with an error
 }
 
 func (s *recSession) rec(c recCall) recResult {
@@ -151,6 +152,9 @@ func (s *recSession) Write(ctx context.Context, fid p9p.Fid, p []byte, offset in
 }
 func (s *recSession) Open(ctx context.Context, fid p9p.Fid, mode p9p.Flag) (p9p.Qid, uint32, error) {
 	r := s.rec(recCall{method: "Open", fid: fid, mode: mode})
+	if s.byUID && s.errFid != 0 && fid == s.errFid {
+		return p9p.Qid{}, 0, fmt.Errorf("refused-%d", fid)
+	}
 	if s.byUID {
 		return uidQid(fid), uint32(fid), nil
 	}
@@ -197,6 +201,10 @@ type c09pair struct {
 	closers []io.Closer
 }
 
+// c09frag, if non-zero, makes the next pairs deliver at most that many bytes per Read on both
+// ends (a stream socket handing over small segments).
+var c09frag int
+
 func newC09Pair(bufCap int, rewriteMsize uint32) (*c09pair, error) {
 	p := &c09pair{S: &recSession{}, srvDone: make(chan struct{})}
 	ctx, cancel := context.WithCancel(context.Background())
@@ -210,6 +218,9 @@ func newC09Pair(bufCap int, rewriteMsize uint32) (*c09pair, error) {
 		c, s := net.Pipe()
 		conn, sconn = c, s
 		p.closers = []io.Closer{c, s}
+	}
+	if c09frag > 0 {
+		conn, sconn = &wire.Frag{Conn: conn, Max: c09frag}, &wire.Frag{Conn: sconn, Max: c09frag}
 	}
 	go func() {
 		p9p.ServeConn(ctx, sconn, p9p.SSession(p.S))
@@ -288,6 +299,11 @@ func runC09(w *mon.W) {
 			if w.Rng.Intn(3) == 0 {
 				ms = []uint32{4096, 8192, 1024, 300}[w.Rng.Intn(4)]
 			}
+			c09frag = 0
+			if w.Rng.Intn(4) == 0 {
+				c09frag = []int{1, 2, 3, 7}[w.Rng.Intn(4)]
+				w.Count("fragmenting_pairs", 1)
+			}
 			var err error
 			for attempt := 0; attempt < 3; attempt++ {
 				pair, err = newC09Pair(1<<21, ms)
@@ -311,6 +327,7 @@ func runC09(w *mon.W) {
 		pair.close()
 		pair = nil
 	}
+	c09frag = 0
 	// ---- a call with a deadline, then (the connection's clock past that deadline) calls without one
 	for i := 0; i < w.Scale(8, 200); i++ {
 		if w.Mine(i) {
@@ -975,7 +992,7 @@ func c09Abandon(w *mon.W, n int) {
 // on the same client session; every one of them, and finally the pending one, must get its
 // own result. The pending call is the one issued when the tag counter wraps (the 65535th).
 func c09Wrap(w *mon.W) {
-	desc := "wrap cell: the 65535th call stays pending inside S while 66000 more calls are made"
+	desc := "wrap cell: three calls S refuses, then the 65535th call stays pending inside S while 66000 more calls are made"
 	w.Case("C09 %s", desc)
 	p, err := newC09Pair(1<<20, 0)
 	if err != nil {
@@ -1003,6 +1020,17 @@ func c09Wrap(w *mon.W) {
 	hold := make(chan struct{})
 	go func() {
 		defer close(fin)
+		// the history starts with calls that S answers with an error: nothing of them may linger
+		p.S.mu.Lock()
+		p.S.errFid = 4000000
+		p.S.mu.Unlock()
+		for k := 0; k < 3; k++ {
+			if _, _, err := p.cli.Open(ctx, 4000000, p9p.OREAD); err == nil || !strings.Contains(err.Error(), "refused-4000000") {
+				w.Violate("mismatch", "C09:wrap:error-result", fmt.Sprintf("%s: a call S refuses returned err=%v", desc, err), nil)
+				ok = false
+				return
+			}
+		}
 		for i := 1; i <= 65534 && ok; i++ {
 			ok = call(i)
 		}
